@@ -143,7 +143,7 @@ def run(ctx):
     for i, (e, fc) in enumerate(repl):
         rest = {(c, pol) for c, pol in fc if not (c[0] == "in" and c[1] == T.K("flow")) and not any(x == T.atom("checkpoint_path") for x in T.subterms(c))}
         ctx.decide(rest == {(T.atom("overwrite"), True)}, "C14.fit", fit.ident, loc_of(fit, e.node), "fit replaces a flow already in the file only when the caller passes overwrite",
-                   "fit replaces the flow stored in the file when " + " and ".join(("" if pol else "not ") + T.show(c)[:60] for c, pol in sorted(rest, key=repr))
+                   "fit replaces the flow stored in the file when " + (" and ".join(("" if pol else "not ") + T.show(c)[:60] for c, pol in sorted(rest, key=repr)) or "a checkpoint context is active (no explicit request)")
                    + ", not only on the caller's overwrite: a refit inside an auto-checkpoint context swaps /flow under a checkpoint weighted with the previous flow", disc=f"implicit|{i}")
         # the same branch must also drop / refresh the stored checkpoint
         branch = None
